@@ -184,7 +184,7 @@ class FTable(Foreign):
         if name == 'field' and args and isinstance(args[0], str):
             return self.sl_getitem(interp, args[0], node)
         if name == 'itercols':
-            return [self.cols[n] for n in self.names()]
+            return [QCol(bare(self.cols[n]) if isinstance(self.cols[n], Arr) else self.cols[n], self.get_unit(i)) for i, n in enumerate(self.names())]
         if name == 'keys':
             return self.names()
         if name == 'sort' and args and isinstance(args[0], str) and args[0] in self.cols:
